@@ -71,3 +71,12 @@ package http2
 //@   loop 1 use ltShift(b.chunks, len(b.chunks) - 1)
 //@   loop 1 use ltNonNeg(b.chunks[1:], len(b.chunks) - 2)
 //@   loop 1 use ltNonNeg(b.chunks, len(b.chunks))
+
+//@ -- C10: a write buffer taken from bufWriterPool belongs to one connection until Flush hands it back; from then on the
+//@ -- connection must not reference it (the next connection to take it from the pool would share it: frames of one
+//@ -- connection on another's socket, or a nil dereference on the unrecovered write goroutine)
+//@ func (*bufferedWriter).Flush :: w -> err
+//@   trusted
+//@   props C10,C08,C06
+//@   assigns unrestricted
+//@   structural [C10,C08,C06:pooled-write-buffer-is-released-by-its-connection] pool_put_releases bw
